@@ -408,6 +408,30 @@ class RefFlash:
             if d < 1e-12: break
         return V, x, y, K
 
+def flash_with_gas(ref, z, za, T, P):
+    """(T,P) flash of volatile chemicals (mole fractions z of the TOTAL feed, sum z = 1 - za) beside a non-condensable gas (fraction za > 0,
+    K = infinity): beta solves  sum z_i (K_i - 1)/(1 + beta (K_i - 1)) + za/beta = 0  (Brent in (0, 1]); returns (beta, x, y, v) with
+    v_i = beta * y_i = vapour of chemical i per unit of total feed.  Activity coefficients are evaluated at the gas-free normalised liquid
+    composition (irrelevant for ideal packages, for which alone this reference is used)."""
+    from scipy.optimize import brentq
+    z = np.asarray(z, float)
+    Ps = ref.Psats(T)
+    x = z / z.sum(); y = x * Ps; y = y / y.sum()
+    beta = 0.5
+    for it in range(500):
+        K = ref.Kvalues(x, y, T, P, Ps)
+        c = K - 1.
+        f = lambda b: float((z * c / (1. + b * c)).sum() + za / b)
+        if f(1.) >= 0.: bn = 1.
+        else: bn = float(brentq(f, 1e-15, 1., xtol=1e-16, rtol=8.9e-16, maxiter=300))
+        xl = z / (1. + bn * c)
+        xn = xl / xl.sum(); yv = K * xl; yn = yv / yv.sum()
+        d = max(np.abs(xn - x).max(), np.abs(yn - y).max(), abs(bn - beta))
+        x, y, beta = xn, yn, bn
+        if d < 1e-12: break
+    xl = z / (1. + beta * (K - 1.))
+    return beta, xl, K * xl, beta * K * xl
+
 def volatile_indices(th, present):
     return [i for i in th.chemicals._vle_index if i in present]
 
